@@ -30,6 +30,20 @@ class Untranslatable(Exception):
     pass
 
 
+def split_prod(ty):
+    """components of `A × B × C` (top level only)"""
+    out, depth, cur = [], 0, ''
+    for tok in ty.split(' '):
+        depth += tok.count('(') - tok.count(')')
+        if tok == '×' and depth == 0:
+            out.append(cur.strip())
+            cur = ''
+        else:
+            cur += ' ' + tok
+    out.append(cur.strip())
+    return [o[1:-1] if o.startswith('(') and o.endswith(')') and ' × ' not in o[1:-1] else o for o in out]
+
+
 KEYWORDS = {'at', 'from', 'end', 'open', 'fun', 'show', 'have', 'do', 'then', 'else', 'if', 'let', 'in', 'by',
             'match', 'with', 'where', 'def', 'theorem', 'namespace', 'section', 'instance', 'class', 'structure',
             'variable', 'universe', 'import', 'export', 'prefix', 'infix', 'notation', 'macro', 'syntax', 'Type',
@@ -55,6 +69,28 @@ def ilit(k):
     return f'({k} : Int)'
 
 
+def is_list(ty):
+    return ty == 'Np' or ty.startswith('List ')
+
+
+def elem_ty(ty):
+    if ty == 'Np':
+        return 'Int'
+    e = ty[5:].strip()
+    return e[1:-1] if e.startswith('(') and e.endswith(')') else e
+
+
+def paren(t):
+    return t if (' ' not in t or t.startswith('(')) else f'({t})'
+
+
+def tuple_proj(n, i):
+    """projection i of an n-tuple nested to the right"""
+    if n == 1:
+        return ''
+    return ''.join('.2' for _ in range(i)) + ('.1' if i < n - 1 else '')
+
+
 class Spec:
     """what the translator may assume about names it does not translate itself"""
 
@@ -70,6 +106,7 @@ class Spec:
         self.fields = {}                  # (type, python attribute) -> (Lean field, field type): attributes that may be stored to
         self.value_types = set()          # record types with value semantics (`x.copy()` is the identity on the model's values)
         self.kinds = set()                # note type strings that exist as `Kind` constructors
+        self.tuple_fields = {}            # (record type, constant index) -> (template, type): rows stored as Python lists
 
 
 class FunTr:
@@ -78,6 +115,9 @@ class FunTr:
         self.n = 0
         self.assumed = []      # partial-evaluation decisions taken from the declared types
         self.fresh_terms = set()   # terms known to denote a value no other name refers to (results of copy / constructors / calls)
+        self.last_tuple = None     # (term, [(component term, type)]) of the tuple expression translated last
+        self.tyvars = {}           # marker -> resolved element type of an empty list literal
+        self.in_loop = 0
 
     def fresh(self, base='t'):
         self.n += 1
@@ -125,7 +165,19 @@ class FunTr:
 
     def e_Tuple(self, e, env, B):
         parts = [self.expr(x, env, B) for x in e.elts]
-        return '(' + ', '.join(p[0] for p in parts) + ')', ' × '.join(lean_ty(p[1]) for p in parts)
+        t = '(' + ', '.join(p[0] for p in parts) + ')'
+        self.last_tuple = (t, parts)
+        return t, ' × '.join(paren(lean_ty(p[1])) if ' × ' in lean_ty(p[1]) else lean_ty(p[1]) for p in parts)
+
+    def e_List(self, e, env, B):
+        if not e.elts:
+            m = f'⟦T{len(self.tyvars) + 1}⟧'
+            self.tyvars[m] = None
+            return '[]', f'List {m}'
+        parts = [self.expr(x, env, B) for x in e.elts]
+        if any(p[1] != parts[0][1] for p in parts):
+            raise Untranslatable('heterogeneous list')
+        return '[' + ', '.join(p[0] for p in parts) + ']', f'List {paren(lean_ty(parts[0][1]))}'
 
     def e_UnaryOp(self, e, env, B):
         t, ty = self.expr(e.operand, env, B)
@@ -162,6 +214,17 @@ class FunTr:
             raise Untranslatable('conditional expression')
         return f'(if {c} then {a} else {b})', aty
 
+    def unify_list(self, a, b):
+        """two list types, one of which may still have an unresolved element type"""
+        if a == b:
+            return a, b
+        for x, y in ((a, b), (b, a)):
+            m = elem_ty(x)
+            if m in self.tyvars and m not in elem_ty(y):
+                self.tyvars[m] = elem_ty(y)
+                return y, y
+        raise Untranslatable(f'{a} + {b}')
+
     def posint(self, e):
         return isinstance(e, ast.Constant) and isinstance(e.value, int) and not isinstance(e.value, bool) and e.value > 0
 
@@ -187,8 +250,9 @@ class FunTr:
         if aty == 'Np' and bty == 'Int' and op in ('Add', 'Sub', 'Mult'):
             v = self.fresh('v')
             return f'({a}.map (fun ({v} : Int) => {v} {dict(Add="+", Sub="-", Mult="*")[op]} {b}))', 'Np'
-        if aty == 'List Int' and bty == 'List Int' and op == 'Add':
-            return f'({a} ++ {b})', 'List Int'
+        if is_list(aty) and is_list(bty) and aty != 'Np' and op == 'Add':
+            aty, bty = self.unify_list(aty, bty)
+            return f'({a} ++ {b})', aty
         if (aty, op) in self.spec.operators and bty == aty:
             return self.call_fun(self.spec.operators[(aty, op)], [(a, aty), (b, bty)], B)
         raise Untranslatable(f'{aty} {op} {bty} at line {e.lineno}')
@@ -207,7 +271,8 @@ class FunTr:
             elif aty.startswith('Option '):
                 r = f'{a}.isNone'
             else:
-                self.assumed.append(f'line {e.lineno}: `{ast.unparse(e.left)}` of type {aty} is never None')
+                if not (isinstance(e.left, ast.Name) and e.left.id in env.get('__narrowed__', ())):
+                    self.assumed.append(f'line {e.lineno}: `{ast.unparse(e.left)}` of type {aty} is never None')
                 r = 'false'
             if op == 'IsNot':
                 r = {'true': 'false', 'false': 'true'}.get(r, f'(!{r})')
@@ -264,9 +329,13 @@ class FunTr:
             if ity != 'Int':
                 raise Untranslatable('slice bound')
             return f'(Py.{fn} {v} {i})', 'List Int'
+        if isinstance(e.slice, ast.Constant) and (vty, e.slice.value) in self.spec.tuple_fields:
+            tmpl, rty = self.spec.tuple_fields[(vty, e.slice.value)]
+            return tmpl.format(v), rty
         i, ity = self.expr(e.slice, env, B)
-        if vty in LIST_TYPES and ity == 'Int':
-            return self.bind(B, f'pyIndex {v} {i}', 'Res Int')
+        if is_list(vty) and ity == 'Int':
+            et = elem_ty(vty)
+            return self.bind(B, f'pyIndex {v} {i}', 'Res ' + paren(et))
         if vty == 'Np' and ity == 'NpBool':
             return f'(Py.npMask {v} {i})', 'Np'
         raise Untranslatable(f'{vty}[{ity}] at line {e.lineno}')
@@ -285,9 +354,7 @@ class FunTr:
         f = self.spec.funs[pyname]
         if len(args) != len(f['params']):
             raise Untranslatable(f'arity of {pyname}')
-        for (t, ty), (pn, pty) in zip(args, f['params']):
-            if lean_ty(ty) != lean_ty(pty):
-                raise Untranslatable(f'argument {pn} of {pyname}: {ty}, expected {pty}')
+        args = [(self.coerce(t, ty, pty, f'argument {pn} of {pyname}'), pty) for (t, ty), (pn, pty) in zip(args, f['params'])]
         term = f'{f["lean"]} ' + ' '.join(a[0] if a[0].startswith('(') or a[0].isidentifier() else f'({a[0]})' for a in args)
         if f['pure']:
             return f'({term})', f['ret']
@@ -302,9 +369,9 @@ class FunTr:
             n = fn.id
             if n in ('list',) and len(e.args) == 1:
                 t, ty = self.expr(e.args[0], env, B)
-                if ty not in LIST_TYPES:
+                if not is_list(ty):
                     raise Untranslatable(f'list({ty})')
-                return t, 'List Int'
+                return t, ('List Int' if ty == 'Np' else ty)
             if n == 'sorted' and len(e.args) == 1:
                 a = e.args[0]
                 if isinstance(a, ast.Call) and isinstance(a.func, ast.Name) and a.func.id == 'set' and len(a.args) == 1:
@@ -323,7 +390,7 @@ class FunTr:
                 return t, 'Set Int'
             if n == 'len' and len(e.args) == 1:
                 t, ty = self.expr(e.args[0], env, B)
-                if ty not in LIST_TYPES:
+                if not is_list(ty):
                     raise Untranslatable(f'len({ty})')
                 return f'(Py.len {t})', 'Int'
             if n == 'abs' and len(e.args) == 1:
@@ -405,12 +472,9 @@ class FunTr:
         for py, lean, ty, default in c['fields']:
             if py in given:
                 t, tty = self.expr(given[py], env, B)
-                if ty == 'Rat' and tty == 'Int':
-                    t, tty = f'(({t} : Int) : Rat)', 'Rat'
                 if ty == 'Kind' and tty == 'Str':
                     t, tty = self.bind(B, f'Py.kindOfStr {t}', 'Res Kind')
-                if lean_ty(tty) != ty:
-                    raise Untranslatable(f'{n}({py}=…): {tty}, expected {ty}')
+                t = self.coerce(t, tty, ty, f'{n}({py}=…)')
             elif default is not None:
                 t = default
             else:
@@ -430,41 +494,40 @@ class FunTr:
                 raise Untranslatable('comprehension target')
             # the first iterable is evaluated in the enclosing scope and may raise; the others are per element
             it, ity = self.expr(g.iter, env2, B if g is gens[0] else None)
-            if ity not in LIST_TYPES:
+            if not is_list(ity):
                 raise Untranslatable(f'iteration over {ity}')
-            env2[g.target.id] = 'Int'
+            env2[g.target.id] = elem_ty(ity)
             conds = []
             for c in g.ifs:
                 ct, cty = self.expr(c, env2, None)
                 if cty != 'Bool':
                     raise Untranslatable('comprehension filter')
                 conds.append(ct)
-            iters.append((ident(g.target.id), it, conds))
+            iters.append((ident(g.target.id) + ' : ' + lean_ty(elem_ty(ity)), it, conds, ident(g.target.id)))
         Be = []
         elt, ety = self.expr(e.elt, env2, Be)
-        if ety != 'Int':
-            raise Untranslatable(f'list of {ety}')
+        ety = lean_ty(ety)
         if Be and all(isinstance(m, tuple) for _, m in Be):
             raise Untranslatable('copy inside a comprehension')
         if Be:
             if len(iters) != 1:
                 raise Untranslatable('raising element in a nested comprehension')
-            x, it, conds = iters[0]
+            x, it, conds, xn = iters[0]
             src = it
             for c in conds:
-                src = f'({src}.filter (fun ({x} : Int) => {c}))'
+                src = f'({src}.filter (fun ({x}) => {c}))'
             body = ' '.join((f'let {n} := {m[1]};' if isinstance(m, tuple) else f'let {n} ← {m};') for n, m in Be) + f' pure {elt}'
-            return self.bind(B, f'{src}.mapM (fun ({x} : Int) => do {body})', 'Res (List Int)')
+            return self.bind(B, f'{src}.mapM (fun ({x}) => do {body})', f'Res (List {paren(ety)})')
         term = None
-        for x, it, conds in reversed(iters):
+        for x, it, conds, xn in reversed(iters):
             src = it
             for c in conds:
-                src = f'({src}.filter (fun ({x} : Int) => {c}))'
+                src = f'({src}.filter (fun ({x}) => {c}))'
             if term is None:
-                term = src if elt == x else f'({src}.map (fun ({x} : Int) => {elt}))'
+                term = src if elt == xn else f'({src}.map (fun ({x}) => {elt}))'
             else:
-                term = f'({src}.flatMap (fun ({x} : Int) => {term}))'
-        return term, 'List Int'
+                term = f'({src}.flatMap (fun ({x}) => {term}))'
+        return term, f'List {paren(ety)}'
 
     def e_SetComp(self, e, env, B):
         l = ast.ListComp(elt=e.elt, generators=e.generators)
@@ -473,16 +536,40 @@ class FunTr:
         return t, 'Set Int'       # only ever used for membership tests
 
     # ---------------------------------------------------------------- statements
-    def coerce_ret(self, t, ty):
-        r = self.ret
-        if lean_ty(ty) == lean_ty(r):
+    def coerce(self, t, ty, want, what='value'):
+        """the value `t : ty` where a `want` is expected (only conversions Python performs implicitly or that are
+        representation changes of the model: None/T into Optional[T], int into Fraction, tuples componentwise)"""
+        ty, want = self.resolve(ty), self.resolve(want)
+        if lean_ty(ty) == lean_ty(want):
             return t
-        if r.startswith('Option '):
+        if is_list(ty) and is_list(want) and ('⟦' in ty or '⟦' in want):
+            self.unify_list(ty, want)
+            return t
+        if want.startswith('Option '):
             if ty == 'None':
                 return 'none'
-            if lean_ty(ty) == r[7:]:
-                return f'(some {t})'
-        raise Untranslatable(f'return of {ty}, declared {r}')
+            inner = want[7:].strip()
+            inner = inner[1:-1] if inner.startswith('(') and inner.endswith(')') else inner
+            return f'(some {self.coerce(t, ty, inner, what)})'
+        if want == 'Rat' and ty == 'Int':
+            return f'(({t} : Int) : Rat)'
+        if want == 'Bool' and ty == 'Int':
+            return f'(decide ({t} ≠ (0 : Int)))'
+        if ' × ' in want and ' × ' in ty and t.startswith('(') and self.last_tuple and self.last_tuple[0] == t:
+            ws = split_prod(want)
+            parts = self.last_tuple[1]
+            if len(ws) == len(parts):
+                return '(' + ', '.join(self.coerce(pt, pty, w, what) for (pt, pty), w in zip(parts, ws)) + ')'
+        raise Untranslatable(f'{what} of type {ty}, expected {want}')
+
+    def resolve(self, ty):
+        for m, v in self.tyvars.items():
+            if v is not None and m in ty:
+                ty = ty.replace(m, paren(lean_ty(v)))
+        return ty
+
+    def coerce_ret(self, t, ty):
+        return self.coerce(t, ty, self.ret, 'return')
 
     def is_fresh_value(self, v):
         """constructor calls and results of translated functions denote new objects"""
@@ -505,13 +592,53 @@ class FunTr:
                 node = ('bind', n, m, node)
         return node
 
-    def block(self, body, env):
+    def assigned_names(self, stmts):
+        """names (re)bound or mutated anywhere in a statement list"""
+        out = []
+
+        def add(n):
+            if n not in out:
+                out.append(n)
+        for st in stmts:
+            for node in ast.walk(st):
+                if isinstance(node, ast.Assign):
+                    for t in node.targets:
+                        for x in ([t] if not isinstance(t, ast.Tuple) else t.elts):
+                            if isinstance(x, ast.Name):
+                                add(x.id)
+                            elif isinstance(x, ast.Attribute) and isinstance(x.value, ast.Name):
+                                add(x.value.id)
+                elif isinstance(node, ast.AugAssign):
+                    x = node.target
+                    if isinstance(x, ast.Name):
+                        add(x.id)
+                    elif isinstance(x, ast.Attribute) and isinstance(x.value, ast.Name):
+                        add(x.value.id)
+                elif isinstance(node, ast.Call) and isinstance(node.func, ast.Attribute) and node.func.attr == 'append' \
+                        and isinstance(node.func.value, ast.Name):
+                    add(node.func.value.id)
+        return out
+
+    def none_test(self, test, env):
+        """`x is None` / `x is not None` on a local of Optional type -> (name, True if the test is `is None`)"""
+        if isinstance(test, ast.Compare) and len(test.ops) == 1 and isinstance(test.ops[0], (ast.Is, ast.IsNot)) \
+                and isinstance(test.left, ast.Name) and isinstance(test.comparators[0], ast.Constant) \
+                and test.comparators[0].value is None and env.get(test.left.id, '').startswith('Option '):
+            return test.left.id, isinstance(test.ops[0], ast.Is)
+        return None
+
+    def block(self, body, env, k=None):
+        """statement list -> tree; `k(env)` is the node for falling off the end (default: `return None`)"""
+        if k is None:
+            k = lambda env_: ('ret', self.coerce_ret('none', 'None'))
         if not body:
-            return ('ret', self.coerce_ret('none', 'None'))
+            return k(env)
         s, rest = body[0], body[1:]
         if isinstance(s, (ast.Pass, ast.Import, ast.ImportFrom)) or \
                 (isinstance(s, ast.Expr) and isinstance(s.value, ast.Constant) and isinstance(s.value.value, str)):
-            return self.block(rest, env)
+            return self.block(rest, env, k)
+        if isinstance(s, ast.Continue) and self.in_loop:
+            return k(env)
         if isinstance(s, ast.Assign) and len(s.targets) == 1 and isinstance(s.targets[0], ast.Name):
             B = []
             t, ty = self.expr(s.value, env, B)
@@ -519,10 +646,29 @@ class FunTr:
             if ty == 'None':
                 t = '()'
             fr = set(self.fresh_vars(env)) - {ident(name)}
-            if t in self.fresh_terms or self.is_fresh_value(s.value):
+            if t in self.fresh_terms or self.is_fresh_value(s.value) or isinstance(s.value, (ast.List, ast.ListComp)):
                 fr.add(ident(name))
             return self.wrap(B, ('let', ident(name), lean_ty(ty), t,
-                                 self.block(rest, {**env, name: ty, '__fresh__': frozenset(fr)})))
+                                 self.block(rest, {**env, name: ty, '__fresh__': frozenset(fr)}, k)))
+        if isinstance(s, ast.Assign) and len(s.targets) == 1 and isinstance(s.targets[0], ast.Tuple) \
+                and all(isinstance(x, ast.Name) for x in s.targets[0].elts):
+            B = []
+            t, ty = self.expr(s.value, env, B)
+            comps = split_prod(ty)
+            names = [x.id for x in s.targets[0].elts]
+            if len(comps) != len(names):
+                raise Untranslatable(f'unpacking {ty} into {len(names)} names at line {s.lineno}')
+            pr = self.fresh('pr')
+            env2 = dict(env)
+            fr = set(self.fresh_vars(env))
+            for nme, cty in zip(names, comps):
+                env2[nme] = cty
+                fr.add(ident(nme))       # components of a freshly built tuple
+            env2['__fresh__'] = frozenset(fr)
+            node = self.block(rest, env2, k)
+            for idx in reversed(range(len(names))):
+                node = ('let', ident(names[idx]), lean_ty(comps[idx]), f'{pr}{tuple_proj(len(names), idx)}', node)
+            return self.wrap(B, ('let', pr, None, t, node))
         if isinstance(s, (ast.Assign, ast.AugAssign)):
             tgt = s.targets[0] if isinstance(s, ast.Assign) and len(s.targets) == 1 else getattr(s, 'target', None)
             if isinstance(tgt, ast.Attribute) and isinstance(tgt.value, ast.Name) and tgt.value.id in env:
@@ -542,29 +688,77 @@ class FunTr:
                 else:
                     v = s.value
                 t, ty = self.expr(v, env, B)
-                if fty == 'Rat' and ty == 'Int':
-                    t, ty = f'(({t} : Int) : Rat)', 'Rat'
-                if lean_ty(ty) != fty:
-                    raise Untranslatable(f'store of {ty} to {xty}.{tgt.attr} ({fty})')
-                return self.wrap(B, ('let', ident(x), lean_ty(xty), '{ ' + ident(x) + f' with {field} := {t} }}', self.block(rest, env)))
+                t = self.coerce(t, ty, fty, f'store to {xty}.{tgt.attr}')
+                return self.wrap(B, ('let', ident(x), lean_ty(xty), '{ ' + ident(x) + f' with {field} := {t} }}', self.block(rest, env, k)))
         if isinstance(s, ast.AugAssign) and isinstance(s.target, ast.Name):
             B = []
             e = ast.BinOp(left=ast.Name(id=s.target.id, ctx=ast.Load()), op=s.op, right=s.value)
             ast.copy_location(e, s)
             ast.fix_missing_locations(e)
             t, ty = self.expr(e, env, B)
-            return self.wrap(B, ('let', ident(s.target.id), lean_ty(ty), t, self.block(rest, {**env, s.target.id: ty})))
+            if is_list(ty) and ident(s.target.id) not in self.fresh_vars(env):
+                raise Untranslatable(f'`{s.target.id} += …` on a list that may alias an operand, at line {s.lineno}')
+            return self.wrap(B, ('let', ident(s.target.id), lean_ty(ty), t, self.block(rest, {**env, s.target.id: ty}, k)))
+        if isinstance(s, ast.Expr) and isinstance(s.value, ast.Call) and isinstance(s.value.func, ast.Attribute) \
+                and s.value.func.attr == 'append' and isinstance(s.value.func.value, ast.Name) and len(s.value.args) == 1:
+            x = s.value.func.value.id
+            if x not in env or not is_list(env[x]) or env[x] == 'Np':
+                raise Untranslatable(f'append to {env.get(x)} at line {s.lineno}')
+            if ident(x) not in self.fresh_vars(env):
+                raise Untranslatable(f'append to `{x}`, which may alias an operand, at line {s.lineno}')
+            B = []
+            t, ty = self.expr(s.value.args[0], env, B)
+            lty, _ = self.unify_list(env[x], f'List {paren(lean_ty(ty))}')
+            return self.wrap(B, ('let', ident(x), lean_ty(lty), f'({ident(x)} ++ [{t}])', self.block(rest, {**env, x: lty}, k)))
         if isinstance(s, ast.If):
+            nt = self.none_test(s.test, env)
+            if nt is not None:
+                x, is_none = nt
+                inner = env[x][7:].strip()
+                inner = inner[1:-1] if inner.startswith('(') and inner.endswith(')') else inner
+                b_none, b_some = (s.body, s.orelse) if is_none else (s.orelse, s.body)
+                return ('matchopt', ident(x),
+                        self.block(list(b_some) + rest, {**env, x: inner, '__narrowed__': tuple(env.get('__narrowed__', ())) + (x,)}, k),
+                        self.block(list(b_none) + rest, {**env, x: 'None'}, k))
             B = []
             c, cty = self.expr(s.test, env, B)
             if cty != 'Bool':
                 raise Untranslatable(f'condition of type {cty} at line {s.lineno}')
             if c == 'true':
-                return self.wrap(B, self.block(list(s.body) + rest, env))
+                return self.wrap(B, self.block(list(s.body) + rest, env, k))
             if c == 'false':
-                return self.wrap(B, self.block(list(s.orelse) + rest, env))
-            return self.wrap(B, ('if', c, self.block(list(s.body) + rest, env), self.block(list(s.orelse) + rest, env)))
+                return self.wrap(B, self.block(list(s.orelse) + rest, env, k))
+            return self.wrap(B, ('if', c, self.block(list(s.body) + rest, env, k), self.block(list(s.orelse) + rest, env, k)))
+        if isinstance(s, ast.For) and not s.orelse and isinstance(s.target, ast.Name):
+            B = []
+            it, ity = self.expr(s.iter, env, B)
+            if not is_list(ity):
+                raise Untranslatable(f'loop over {ity} at line {s.lineno}')
+            svars = [n for n in self.assigned_names(s.body) if n in env and n != s.target.id]
+            stys = [env[n] for n in svars]
+            if any(t_ == 'None' or '⟦' in t_ and self.tyvars.get(elem_ty(t_)) is None and False for t_ in stys):
+                raise Untranslatable('loop state of unknown type')
+
+            def k_state(env_):
+                parts = []
+                for n, t0 in zip(svars, stys):
+                    t1 = env_[n]
+                    if is_list(t0) and is_list(t1):
+                        self.unify_list(t0, t1)
+                        parts.append(ident(n))
+                    else:
+                        parts.append(self.coerce(ident(n), t1, t0, f'loop variable {n}'))
+                return ('ret', '(' + ', '.join(parts) + ')' if len(parts) != 1 else parts[0])
+            self.in_loop += 1
+            fr = frozenset(set(self.fresh_vars(env)) - {ident(s.target.id)})
+            body = self.block(list(s.body), {**env, s.target.id: elem_ty(ity), '__fresh__': fr}, k_state)
+            self.in_loop -= 1
+            st = self.fresh('st')
+            return self.wrap(B, ('for', st, it, lean_ty(elem_ty(ity)), ident(s.target.id),
+                                 [(ident(n), t_) for n, t_ in zip(svars, stys)], body, self.block(rest, env, k)))
         if isinstance(s, ast.Return):
+            if self.in_loop:
+                raise Untranslatable(f'return inside a loop at line {s.lineno}')
             if s.value is None:
                 return ('ret', self.coerce_ret('none', 'None'))
             B = []
@@ -585,8 +779,10 @@ def is_pure(node):
         return False
     if k == 'let':
         return is_pure(node[4])
-    if k == 'if':
+    if k in ('if', 'matchopt'):
         return is_pure(node[2]) and is_pure(node[3])
+    if k == 'for':
+        return is_pure(node[6]) and is_pure(node[7])
     return True
 
 
@@ -600,6 +796,29 @@ def render(node, ind, monadic):
         return [f'{sp}let {node[1]} ← {node[2]}'] + render(node[3], ind, monadic)
     if k == 'if':
         return [f'{sp}if {node[1]} then'] + render(node[2], ind + 2, monadic) + [f'{sp}else'] + render(node[3], ind + 2, monadic)
+    if k == 'matchopt':
+        return [f'{sp}match {node[1]} with', f'{sp}| some {node[1]} =>'] + render(node[2], ind + 4, monadic) + \
+               [f'{sp}| none =>'] + render(node[3], ind + 4, monadic)
+    if k == 'for':
+        _, st, it, xty, x, svars, body, rest = node
+        n = len(svars)
+        sty = ' × '.join(paren(lean_ty(t)) if ' × ' in lean_ty(t) else lean_ty(t) for _, t in svars) or 'Unit'
+        init = '(' + ', '.join(v for v, _ in svars) + ')' if n != 1 else svars[0][0]
+        if n == 0:
+            init = '()'
+        body_pure = is_pure(body)
+        out = []
+        unpack = [f'{sp}    let {v} : {lean_ty(t)} := {st}{tuple_proj(n, i)}' for i, (v, t) in enumerate(svars)]
+        if body_pure:
+            out.append(f'{sp}let {st} : {sty} := ({it}).foldl (fun ({st} : {sty}) ({x} : {xty}) =>')
+            out += unpack + render(body, ind + 4, False)
+            out.append(f'{sp}  ) {init}')
+        else:
+            out.append(f'{sp}let {st} : {sty} ← ({it}).foldlM (fun ({st} : {sty}) ({x} : {xty}) => do')
+            out += unpack + render(body, ind + 4, True)
+            out.append(f'{sp}  ) {init}')
+        out += [f'{sp}let {v} : {lean_ty(t)} := {st}{tuple_proj(n, i)}' for i, (v, t) in enumerate(svars)]
+        return out + render(rest, ind, monadic)
     if k == 'ret':
         return [f'{sp}pure {node[1]}' if monadic else f'{sp}{node[1]}']
     if k == 'raise':
@@ -653,6 +872,13 @@ def translate_function(spec, entry):
         rt_m = rt
     head = f'def {entry["lean"]} {sig} : ' + (rt if pure else f'Res {rt_m}') + ' :=' + ('' if pure else ' do')
     lines = [f'/-- `{entry["py"]}` -/', head] + render(tree, 2, not pure)
+    text = '\n'.join(lines)
+    for m, v in tr.tyvars.items():
+        if m in text:
+            if v is None:
+                raise Untranslatable('an empty list whose element type is never determined')
+            text = text.replace(m, paren(lean_ty(v)))
+    lines = text.split('\n')
     info = {'lean': entry['lean'], 'params': params, 'ret': entry['ret'], 'pure': pure}
     spec.funs[entry['name']] = info
     if 'attr' in entry:
